@@ -8,7 +8,7 @@ use remoc::{
 use serde::{Deserialize, Serialize};
 use std::{collections::BTreeMap, sync::Arc, time::Duration};
 
-use super::c04::{base_pair, typed_cfg};
+use super::c04::{base_pair, carrier_cfg as typed_cfg};
 use crate::{
     explore::{Params, explore},
     net::LinkOpts,
